@@ -48,7 +48,7 @@ if marker in s:
 out = [s.rstrip(), "", marker.strip(), "",
        "Generated from `docs/design/<id>.md` (written with each property; `tools/mkdesign.py`). Properties without a file here",
        "follow their section-5 design; what each check covers is also in `props/<id>.json`.", ""]
-written = {os.path.basename(f)[:-3]: f for f in glob.glob(os.path.join(ROOT, "docs", "design", "C*.md"))}
+written = {os.path.basename(f)[:-3]: f for f in glob.glob(os.path.join(ROOT, "docs", "design", "C??.md"))}
 for pf in sorted(glob.glob(os.path.join(ROOT, "props", "C*.json"))):
     pid = os.path.basename(pf)[:-5]
     if pid in written:
@@ -57,6 +57,13 @@ for pf in sorted(glob.glob(os.path.join(ROOT, "props", "C*.json"))):
         shift = 3 - (len(first.group(1)) if first else 1)  # the note's first heading becomes a ### heading
         body = re.sub(r"^(#+) ", lambda m: "#" * max(3, len(m.group(1)) + shift) + " ", body, flags=re.M)
         out += [body, ""]
+        # later rounds write separate notes docs/design/<id>-<round>.md: appended below the property's note
+        for ef in sorted(glob.glob(os.path.join(ROOT, "docs", "design", pid + "-*.md"))):
+            eb = open(ef).read().strip()
+            fm = re.search(r"^(#+) ", eb, flags=re.M)
+            sh = 4 - (len(fm.group(1)) if fm else 1)
+            eb = re.sub(r"^(#+) ", lambda m: "#" * max(4, len(m.group(1)) + sh) + " ", eb, flags=re.M)
+            out += ["<!-- from docs/design/%s -->" % os.path.basename(ef), eb, ""]
         continue
     # no hand-written note: summarise from props/<id>.json and known_findings/<id>.json
     c = json.load(open(pf))
